@@ -11,4 +11,21 @@ ThrMC      == {-4, 0, 8}
 ThrInfo    == {0}
 ThrWarn    == {4}
 ThrTree    == {-1}                       \* neither a named level nor the default
+
+(* Record shapes: the sizes of the AddAttrs calls that build a record.  A      *)
+(* record keeps 5 attributes inline; <<6, 1, 1>> is the smallest shape whose   *)
+(* slice of further attributes ends up with spare capacity (1, 2, then 4).     *)
+NoShapes    == {}
+ShapesMC    == {<<6, 1, 1>>, <<5, 1>>, <<8>>}
+ShapesQuick == {<<6>>, <<8>>, <<5, 1>>, <<6, 1>>, <<6, 1, 1>>, <<5, 1, 1, 1>>, <<7, 1>>, <<3, 3, 2>>, <<4, 4>>}
+(* every way to add 0..8 attributes with 1..3 calls *)
+ShapesAll   == {s \in UNION {[1..k -> 0..8] : k \in 1..3} : SumSeq(s) <= 8}
+
+SizesNone  == {0}
+SizesLS    == {0, 4}               \* small and 16 KiB+1
+SizesQuick == {0, 1, 3, 4, 5}      \* small, 4 KiB-1, 16 KiB, 16 KiB+1, 64 KiB
+SizesAll   == {0, 1, 2, 3, 4, 5, 6} \* ... 16 KiB-1 ... 1 MiB
+Large      == {2, 3, 4, 5, 6}       \* the line is longer than 16 KiB
+LevelsOne  == {8}
+LevelsTwo  == {0, 8}
 =============================================================================
